@@ -37,6 +37,10 @@ func (l LockSet) meet(o LockSet) LockSet {
 	for k := range l.m {
 		if o.m[k] {
 			n.m[k] = true
+		} else if strings.HasPrefix(k, "W:") && o.m["R:"+k[2:]] {
+			n.m["R:"+k[2:]] = true // held exclusively on one path, shared on the other: held (shared) on both
+		} else if strings.HasPrefix(k, "R:") && o.m["W:"+k[2:]] {
+			n.m[k] = true
 		}
 	}
 	return n
